@@ -45,14 +45,40 @@ func VerifConvertToLogicalLines(rawText string, mk bool) (lines []VerifLine, eof
 	return
 }
 
+// VerifLoadLines writes rawText to path (a file in an existing scratch directory
+// whose name does not end in .mk, so the file cache stays out of the way) and
+// loads it with Load(path, 0) or Load(path, Makefile): the path every file of a
+// pkglint run takes. eofError as in VerifConvertToLogicalLines.
+func VerifLoadLines(path string, rawText string, mk bool) (lines []VerifLine, eofError bool, panicked string) {
+	var out bytes.Buffer
+	G.Logger = Logger{out: NewSeparatorWriter(&out), err: NewSeparatorWriter(&out)}
+	panicked = VerifPanic(func() {
+		if err := os.WriteFile(path, []byte(rawText), 0o644); err != nil {
+			panic(err)
+		}
+		var options LoadOptions
+		if mk {
+			options = Makefile
+		}
+		res := Load(NewCurrPathString(path), options)
+		if res == nil {
+			panic("Load returned nil")
+		}
+		lines = verifLines(res)
+	})
+	eofError = G.Logger.errors > 0
+	return
+}
+
 // VerifFixOp is one edit made through the Autofix API on the logical line with
 // the given 0-based index: "touch" (line.Autofix() only, nothing modified),
-// "replace" (Replace(From, To)), "above" (InsertAbove(To)), "below"
+// "replace" (Replace(From, To)), "replaceafter" (ReplaceAfter(Prefix, From, To)), "above" (InsertAbove(To)), "below"
 // (InsertBelow(To)), "delete" (Delete()).
 type VerifFixOp struct {
 	Line     int
 	Kind     string
 	From, To string
+	Prefix   string // "replaceafter": ReplaceAfter(Prefix, From, To)
 }
 
 // VerifFixState is what SaveAutofixChanges reads from a line: whether it has a
@@ -90,6 +116,9 @@ func VerifSaveScript(path string, rawText string, mk bool, ops []VerifFixOp) (li
 			case "replace":
 				fix.Warnf("Verif replace.")
 				fix.Replace(op.From, op.To)
+			case "replaceafter":
+				fix.Warnf("Verif replace after.")
+				fix.ReplaceAfter(op.Prefix, op.From, op.To)
 			case "above":
 				fix.Warnf("Verif above.")
 				fix.InsertAbove(op.To)
